@@ -44,6 +44,8 @@ pub struct RenderStats {
     pub stmt_offsets: Vec<usize>,
     /// block nesting depth of each statement (0 = top level)
     pub stmt_depths: Vec<u32>,
+    /// line on which the first line break after the statement's first token is written (= last line of a simple statement)
+    pub stmt_end_lines: Vec<u32>,
 }
 
 #[derive(Clone, Debug)]
@@ -74,6 +76,7 @@ struct R<'a> {
     force_dash: bool,
     pending: Option<usize>,
     depth: u32,
+    open_stmts: Vec<usize>,
 }
 
 const NOISE_CHARS: &[&str] = &["!", "?", ";", ":", "[", "]", "{", "}", "#", "$", "%", "@", "^", "|", "~", "=", ")", "\\", "`"];
@@ -101,6 +104,7 @@ pub fn render(p: &Program, spelling: &[u32], opts: RenderOpts) -> Rendered {
         force_dash: false,
         pending: None,
         depth: 0,
+        open_stmts: vec![],
     };
     r.program(p);
     Rendered { text: r.out, stats: r.st }
@@ -122,6 +126,7 @@ pub fn render_expr_canonical(e: &Expr) -> String {
         force_dash: false,
         pending: None,
         depth: 0,
+        open_stmts: vec![],
     };
     r.expr(e);
     r.out
@@ -697,6 +702,9 @@ impl<'a> R<'a> {
                 self.st.crlf = true;
             }
         }
+        for i in std::mem::take(&mut self.open_stmts) {
+            self.st.stmt_end_lines[i] = self.line;
+        }
         self.push_raw("\n");
         self.at_line_start = true;
         self.last = Last::None;
@@ -737,6 +745,8 @@ impl<'a> R<'a> {
         self.st.stmt_lines.push(0);
         self.st.stmt_offsets.push(0);
         self.st.stmt_depths.push(self.depth);
+        self.st.stmt_end_lines.push(0);
+        self.open_stmts.push(line_idx);
         self.pending = Some(line_idx);
         match s {
             Stmt::Assign { dest, value, op } => {
